@@ -40,7 +40,19 @@ func (c12) Gen(seed uint64, run int, tier, variant string) interface{} {
 		}
 		p.Clients = append(p.Clients, ops)
 	}
-	if r.Chance(25) {
+	if r.Chance(6) {
+		// a crowd: more clients than any per-CPU resource the library might pre-allocate on this
+		// machine, one small operation each
+		k := genOp(r)
+		k.Kind = []string{"prove", "verify", "commit", "ipa", "pipe-roundtrip", "readproof"}[r.Intn(6)]
+		if k.Size == 0 || k.Size > 2 {
+			k.Size = 1
+		}
+		p.Clients = nil
+		for c := 0; c < 18+r.Intn(20); c++ {
+			p.Clients = append(p.Clients, []OpSpec{{Kind: k.Kind, Seed: r.U64(), Size: k.Size}})
+		}
+	} else if r.Chance(25) {
 		// many clients hammering the same kind of operation
 		k := genOp(r)
 		for c := range p.Clients {
